@@ -200,10 +200,11 @@ func (s *Scenario) Body() (func(), *Run) {
 }
 
 func (s *Scenario) round(r *Run, round int) {
-	var ctx context.Context = context.Background()
+	// contexts descend from a live cancellable standard-library context (see vs.LiveParent)
+	var ctx context.Context = vs.LiveParent()
 	cancel := func() {}
 	if s.usesCancel() {
-		c, cf := vs.WithCancel(context.Background(), fmt.Sprintf("r%d", round))
+		c, cf := vs.WithCancel(vs.LiveParent(), fmt.Sprintf("r%d", round))
 		ctx, cancel = c, cf
 	}
 	if s.PreCancel {
@@ -232,7 +233,7 @@ func (s *Scenario) round(r *Run, round int) {
 	var ownCtx context.Context
 	for _, j := range s.Jobs {
 		if j.OwnCtx && ownCtx == nil {
-			c, cf := vs.WithCancel(context.Background(), fmt.Sprintf("own%d", round))
+			c, cf := vs.WithCancel(vs.LiveParent(), fmt.Sprintf("own%d", round))
 			cf()
 			ownCtx = c
 		}
@@ -241,7 +242,7 @@ func (s *Scenario) round(r *Run, round int) {
 	liveCancel := map[int]func(){}
 	for i, j := range s.Jobs {
 		if j.OwnLive {
-			c, cf := vs.WithCancel(context.Background(), fmt.Sprintf("live%d.%d", round, i))
+			c, cf := vs.WithCancel(vs.LiveParent(), fmt.Sprintf("live%d.%d", round, i))
 			liveCtx[i], liveCancel[i] = c, cf
 		}
 	}
